@@ -7,28 +7,41 @@ Import ListNotations.
 
 (* ---- escapes ---------------------------------------------------------------- *)
 
+(* special to lex: the character after the backslash starts a lex escape literal
+   (`\x4`, `\u0`, `\U0`, a digit, a f n r t v \, p P, d D s S w W, A z) *)
+Definition lex_special (c : N) (rest : text) : bool := lex_esc_literal (c :: rest).
+
+(* special to the regex engine UNDER THE FLAGS IN FORCE: a meta character, or — when
+   ignore_whitespace is on — a character the engine skips in that mode (White_Space; `#`,
+   which starts a comment there, is a meta character already) *)
+Definition rx_special (iw : bool) (c : N) : bool := is_meta_character c || (iw && is_rx_ws c).
+
+(* the spelling of "c, escaped" that the regex crate accepts: `\c` for ASCII, `\x{HEX}` otherwise *)
+Definition rx_escape (c : N) : text :=
+  if (c <? 128)%N then [c_bsl; c] else [92; 120; 123]%N ++ hex_upper c ++ [125]%N.
+
 (* What `\c` (c followed by [rest]) is rewritten to:
    - `\b` stays `\b` (word boundary), or becomes `\x08` (backspace) under posix_escapes;
-   - `\c` is kept when c is a regex meta character or starts a lex escape literal
-     (`\x4`, `\u0`, `\U0`, a digit, a f n r t v \, p P, d D s S w W, A z);
+   - `\c` stays escaped when c is special to lex or to the regex engine under the flags in force;
    - otherwise it stands for c itself. *)
-Definition esc_image (pe : bool) (c : N) (rest : text) : text :=
+Definition esc_image (iw pe : bool) (c : N) (rest : text) : text :=
   if (c =? c_b)%N then (if pe then [92; 120; 48; 56]%N else [92; 98]%N)
-  else if is_meta_character c || lex_esc_literal (c :: rest) then [c_bsl; c]
+  else if lex_special c rest then [c_bsl; c]
+  else if rx_special iw c then rx_escape c
   else [c].
 
 (* The text read left to right: a backslash pairs with the character after it,
    everything else is copied; a lone final backslash is copied. *)
-Fixpoint map_escapes (pe : bool) (re : text) : text :=
+Fixpoint map_escapes (iw pe : bool) (re : text) : text :=
   match re with
   | [] => []
   | c :: re1 =>
       if (c =? c_bsl)%N then
         match re1 with
         | [] => [c]
-        | c2 :: re2 => esc_image pe c2 re2 ++ map_escapes pe re2
+        | c2 :: re2 => esc_image iw pe c2 re2 ++ map_escapes iw pe re2
         end
-      else c :: map_escapes pe re1
+      else c :: map_escapes iw pe re1
   end.
 
 (* the text ends in a backslash that escapes nothing *)
@@ -40,21 +53,66 @@ Fixpoint dangling (re : text) : bool :=
       else dangling re1
   end.
 
-(* today's code, on every text that does not end in a lone backslash *)
+(* the code as first read (and today's, when ignore_whitespace is off), on every text that does
+   not end in a lone backslash *)
 Definition unescape_spec_stmt : Prop :=
-  forall pe re, dangling re = false -> unescape re pe = Done (map_escapes pe re).
+  forall pe re, dangling re = false -> unescape re pe = Done (map_escapes false pe re).
 
-(* the repaired scanner, on every text *)
+(* the scanner with the lone-backslash repair, on every text (ignore_whitespace off) *)
 Definition unescape_fixed_spec_stmt : Prop :=
-  forall pe re, unescape_gen true re pe = Done (map_escapes pe re).
+  forall pe re, unescape_gen true false re pe = Done (map_escapes false pe re).
 
-(* today's code never panics, whatever the text *)
+(* the scanner with both repairs, on every text, under every setting of the two flags it reads:
+   "special to the regex engine" follows ignore_whitespace *)
+Definition unescape_iw_spec_stmt : Prop :=
+  forall iw pe re, unescape_gen true iw re pe = Done (map_escapes iw pe re).
+
+(* the scanner never panics, whatever the text, the flags and the repairs *)
 Definition unescape_total_stmt : Prop :=
-  forall fixd pe re, exists r, unescape_gen fixd re pe = Done r.
+  forall fixd kw pe re, exists r, unescape_gen fixd kw re pe = Done r.
 
-(* today's code loses text when the regex ends in a lone backslash after an escape that was rewritten *)
+(* the code as first read loses text when the regex ends in a lone backslash after an escape that was rewritten *)
 Definition unescape_dangling_refuted_stmt : Prop :=
-  exists pe re, dangling re = true /\ exists r, unescape re pe = Done r /\ r <> map_escapes pe re.
+  exists pe re, dangling re = true /\ exists r, unescape re pe = Done r /\ r <> map_escapes false pe re.
+
+(* today's code (lone-backslash repair in, white-space repair not) under ignore_whitespace:
+   `a\ b` is rewritten to `a b`, in which the engine skips the blank *)
+Definition unescape_iw_refuted_stmt : Prop :=
+  exists pe re, dangling re = false /\
+    exists r, unescape_gen true false re pe = Done r /\ r <> map_escapes true pe re /\
+              re = [97; 92; 32; 98]%N /\ r = [97; 32; 98]%N.
+
+(* the same seen from the entry point: `%grmtools{ignore_whitespace}\n%%\na\ b 'T'\n` (header end 28,
+   ignore_whitespace in force) yields the single rule T with regex `a b`; with the repair, `a\ b` *)
+Definition iw_witness_src : text :=
+  [37; 103; 114; 109; 116; 111; 111; 108; 115; 123; 105; 103; 110; 111; 114; 101; 95; 119; 104; 105; 116; 101;
+   115; 112; 97; 99; 101; 125; 10; 37; 37; 10; 97; 92; 32; 98; 32; 39; 84; 39; 10]%N.
+Definition lex_iw_refuted_stmt : Prop :=
+  exists st st',
+    lex_from_str pinned iw_witness_src 28 false false true [] = Done (POk st) /\
+    map r_re_str (rules st) = [[97; 32; 98]%N] /\
+    lex_from_str repaired iw_witness_src 28 false false true [] = Done (POk st') /\
+    map r_re_str (rules st') = [[97; 92; 32; 98]%N] /\
+    map r_re_str (rules st') = [map_escapes true false [97; 92; 32; 98]%N].
+
+(* what the images guarantee, stated without the scanner:
+   (1) a character special to neither side loses its backslash;
+   (2) a character special to the regex engine under the flags in force is never left bare: its image
+       starts with a backslash and is `\c` itself or contains no skipped character at all;
+   (3) with ignore_whitespace off nothing depends on the white-space class *)
+Definition esc_image_cases_stmt : Prop :=
+  (forall iw pe c rest, (c =? c_b)%N = false -> lex_special c rest = false -> rx_special iw c = false ->
+     esc_image iw pe c rest = [c]) /\
+  (forall iw pe c rest, (c =? c_b)%N = false -> rx_special iw c = true ->
+     exists t, esc_image iw pe c rest = c_bsl :: t /\
+               (t = [c] \/ forallb (fun d => negb (is_rx_ws d)) t = true)) /\
+  (forall pe c rest, esc_image false pe c rest =
+     if (c =? c_b)%N then (if pe then [92; 120; 48; 56]%N else [92; 98]%N)
+     else if is_meta_character c || lex_esc_literal (c :: rest) then [c_bsl; c] else [c]).
+
+(* the flag off (or the repair not applied): the parser does not depend on the repair / the flag *)
+Definition iw_off_irrelevant_stmt : Prop :=
+  forall fixd pe re, unescape_gen fixd (true && false) re pe = unescape_gen fixd (false && true) re pe.
 
 (* ---- trailing white space ------------------------------------------------------ *)
 
@@ -88,21 +146,22 @@ Definition names_indexed (src : text) (st : pstate) : Prop :=
 
 (* with the two span repairs, for every text, header end, flag setting: *)
 Definition spans_index_source_stmt : Prop :=
-  forall fx src pos awc pe re_bad st,
+  forall fx src pos awc pe iw re_bad st,
     fix_header fx = true -> fix_target_span fx = true ->
-    lex_from_str fx src pos awc pe re_bad = Done (POk st) -> names_indexed src st.
+    lex_from_str fx src pos awc pe iw re_bad = Done (POk st) -> names_indexed src st.
 
 (* today's code: the same holds for the text AFTER the header when no rule has a target ... *)
 (* ... but not for the text the user wrote: *)
 Definition spans_index_source_refuted_stmt : Prop :=
-  exists src pos awc pe st,
-    lex_from_str today src pos awc pe [] = Done (POk st) /\ ~ names_indexed src st.
+  exists src pos awc pe iw st,
+    lex_from_str today src pos awc pe iw [] = Done (POk st) /\ ~ names_indexed src st.
 
 (* and, independently of any header, not next to a target state *)
 Definition target_span_refuted_stmt : Prop :=
-  exists src awc pe st,
-    lex_from_str {| fix_header := true; fix_target_span := false; fix_prefix_unescape := false; fix_dangling := false |}
-                 src 0 awc pe [] = Done (POk st) /\ ~ names_indexed src st.
+  exists src awc pe iw st,
+    lex_from_str {| fix_header := true; fix_target_span := false; fix_prefix_unescape := false; fix_dangling := false;
+                    fix_iw := false |}
+                 src 0 awc pe iw [] = Done (POk st) /\ ~ names_indexed src st.
 
 (* ---- totality -------------------------------------------------------------------- *)
 
@@ -112,10 +171,10 @@ Definition boundary (src : text) (pos : nat) : Prop := exists rest, slice_from s
 (* the mirror of the lex parser returns a result for every text: no Rust panic site is
    reachable and the fuel |src| + 2 is never exhausted *)
 Definition lex_parse_total_stmt : Prop :=
-  forall fx src pos awc pe re_bad, boundary src pos ->
-    exists r, lex_from_str fx src pos awc pe re_bad = Done r.
+  forall fx src pos awc pe iw re_bad, boundary src pos ->
+    exists r, lex_from_str fx src pos awc pe iw re_bad = Done r.
 
 (* an Err result carries at least one error (C12) *)
 Definition lex_errs_nonempty_stmt : Prop :=
-  forall fx src pos awc pe re_bad errs,
-    lex_from_str fx src pos awc pe re_bad = Done (PErrs errs) -> errs <> [].
+  forall fx src pos awc pe iw re_bad errs,
+    lex_from_str fx src pos awc pe iw re_bad = Done (PErrs errs) -> errs <> [].
